@@ -159,7 +159,10 @@ pub fn begin_run(mode: Mode, tracing: bool) {
 pub fn end_run() -> RunRecord {
     let k = lock().take().expect("no run in progress");
     let mut h = FNV_OFFSET;
-    for (_, n, v) in &k.record {
+    for (l, n, v) in &k.record {
+        if l.starts_with("obs:") {
+            continue;
+        }
         h = fnv_u64(h, ((*n as u64) << 32) | *v as u64);
     }
     RunRecord {
@@ -334,6 +337,23 @@ pub fn choose(n: usize, label: &'static str) -> usize {
         return 0;
     }
     with(|k| k.choose(n as u32, label, None)) as usize
+}
+
+/// An observed (uncontrolled) input: in search mode the observed value is recorded on the tape, in
+/// replay mode the recorded value is returned instead (forced). `n` bounds the value (exclusive).
+/// Labels must start with "obs:"; such entries are excluded from the event-log digest.
+pub fn observe(value: usize, n: usize, label: &'static str) -> usize {
+    with(|k| {
+        let v = if let Some(t) = &k.replay {
+            let v = t.get(k.pos).copied().unwrap_or(0);
+            v as usize
+        } else {
+            value
+        };
+        k.pos += 1;
+        k.record.push((label, n as u32, v as u32));
+        v
+    })
 }
 
 /// Weighted choice (weights only shape the search distribution; the tape stores the index).
